@@ -255,10 +255,35 @@ func checkPodsFilters(c *Ctx, orderOnly bool) {
 		if orderOnly {
 			continue
 		}
-		// (c) elements
+		// (c) elements: judged on a generic iteration of the loop over the sorted sources (loop
+		// header values symbolic), not only on the first iteration from the function entry — state
+		// carried from one source to the next (a hoisted namespace filter) must not leak into an element
 		nsOK, nsDetail := true, ""
 		selOK, selDetail := true, ""
 		iter := 0
+		if lps := findLoopsDeep(c.P, fn); len(lps) == 1 {
+			gps := (&Walker{P: c.P}).LoopRegion(fn, lps[0])
+			c.paths += len(gps)
+			for _, pa := range gps {
+				for _, e := range pa.Effects {
+					if e.Kind != "append" {
+						continue
+					}
+					for _, el := range e.Args[1:] {
+						walkTerm(el, func(x *Term) {
+							if x.K != "phi" {
+								return
+							}
+							// the range index (an int counter) is the only loop-carried value an element may depend on
+							if ph, ok := x.V.(*ssa.Phi); ok && isIntLike(ph.Type()) {
+								return
+							}
+							nsOK, nsDetail = false, "an element depends on state carried over from the previous source ("+x.Key()+"): it is not a function of its own source alone"
+						})
+					}
+				}
+			}
+		}
 		for _, pa := range ps {
 			if pa.End.Kind != "cycle" {
 				continue
